@@ -9,6 +9,7 @@ MODULE = "GoNfsd.Props.C01"
 def run(ctx):
     ok_go, ok_drv = seqlib.build_and_prove(ctx, MODULE, extra_parts=["skeleton"])
     seqlib.report_flush_callers(ctx)
+    seqlib.report_journal_objects(ctx)
     if ok_go:
         if ctx.tier == "thorough":
             meta = ["-workloads", "24", "-ops", "60", "-images", "1500", "-second", "6"]
